@@ -92,19 +92,37 @@ Theorem c15_tick_ready_exact : forall w n l sink, (1 <= n)%nat -> good w n l -> 
 Proof. exact tick_ready. Qed.
 Print Assumptions c15_tick_ready_exact.
 
-(** Link between the evaluators of Exec.v.  Full statement (not proved here):
-    forall c, wf c -> check_case c = true -> holds_on c = true.
-    Proved: the lane-exclusivity and FIFO clauses of [holds_on].  Missing: the boolean
-    reflections of the conservation, latency and progress clauses (their
-    Prop counterparts are the theorems above; [holds_on] itself is evaluated on
-    the implementation's observations on every run). *)
-From Akita Require Import C15.Exec C15.Proofs6.
-Theorem c15_model_agreement_implies_property_partial : forall c, (1 <= c_n c)%nat ->
-  check_case c = true ->
-  forallb (fun r => slots_ok (c_w c) (c_n c) (b_snap (cr_obs r))) (c_rounds c) = true /\
-  fifo_ok (c_w c) (c_rounds c) = true.
-Proof. intros c Hn H. split; [apply check_implies_slots|apply check_implies_fifo]; assumption. Qed.
-Print Assumptions c15_model_agreement_implies_property_partial.
+(** Link between the evaluators of Exec.v: if the implementation's observations
+    agree with the model round by round ([check_case]) then the property predicate
+    evaluated on those observations ([holds_on]: lane exclusivity, per-round
+    conservation, no duplicate push, latency — never before stages+delay ticks
+    for ANY sink, exactly then under ready rounds —, progress from every observed
+    snapshot, FIFO for one lane) holds.  [wf_case]: the delays are non-negative. *)
+From Akita Require Import C15.Exec C15.Proofs6 C15.Proofs7 C15.Proofs8 C15.Proofs9.
+Theorem c15_model_agreement_implies_property : forall c, wf_case c ->
+  check_case c = true -> holds_on c = true.
+Proof. exact check_implies_holds. Qed.
+Print Assumptions c15_model_agreement_implies_property.
+
+(** Latency lower bound for an arbitrary sink: an item accepted in round i with
+    delay d is never pushed before round i + (stages - 1) + d. *)
+Theorem c15_never_early : forall w n crs i c id d k, (1 <= n)%nat -> Forall cdelays_ok crs ->
+  map cr_obs crs = snd (run false (new_pipe w n) (map to_round crs)) ->
+  NoDup (flat_map (fun r => map fst (cr_accepts r)) crs) ->
+  nth_error crs i = Some c -> In (id, d) (accepted_in c) -> In id (pushed_at crs k) ->
+  (i + (n - 1) + Z.to_nat d <= k)%nat.
+Proof.
+  intros w n crs i c id d k Hn Hd H Hnd Ec Ha Hk. unfold new_pipe in H.
+  destruct (run_lower w n crs 0 [] [] Hn (st_ok_new w n) Hd H ltac:(intros x []) k id Hk) as [e [He Le]].
+  cbn [app] in He. rewrite (hist_unique n crs 0 i c id e d Hnd He Ec Ha) in Le. lia.
+Qed.
+Print Assumptions c15_never_early.
+
+Example c15_link_nonvacuous :
+  let c := mk_case 1 1 [mk_cround [(5%N, 1%Z)] [] true (mk_robs [true] [] true [mk_pitem 0 0 5 0]);
+                        mk_cround [] [] true (mk_robs [] [5%N] true [])] in
+  wf_case c /\ check_case c = true /\ holds_on c = true.
+Proof. split; [repeat constructor; cbn; lia|split; vm_compute; reflexivity]. Qed.
 
 (** Regression lemma for the code before fix 6f910dbe ([run true]): in a
     single-stage pipeline an item accepted with delay 2 is never decremented and
